@@ -19,8 +19,10 @@ PEERS = [1000, 1001, 1002]
 
 def uid_pool(rng):
     pool = ["t%d@verif" % i for i in range(6)]
-    bits = rng.choice([6, 8, 12, 16, 18])
-    for g in xxh.colliding_groups("k%d." % rng.randint(0, 99999), 400000, bits, want=2, size=rng.choice([2, 3])):
+    bits = rng.choice([6, 8, 12, 16, 18, 18, 24, 28])
+    # (keys agreeing in that many low bits or more: the old grow-until-separate table needed 2^(bits+1) slots for them)
+    for g in xxh.colliding_groups("k%d." % rng.randint(0, 99999), 400000 if bits <= 18 else 150000, bits,
+                                  want=2 if bits <= 18 else 1, size=rng.choice([2, 3]) if bits <= 18 else 2):
         pool += g
     pool.append("L" * rng.choice([100, 200, 249]) + "@verif")
     pool += ["with space@verif", "Mixed/Case:colon@verif", "x"]
@@ -349,7 +351,7 @@ def main(tier):
                        "1-20 adds/replaces (with and without X-ECHS-OWNER naming the peer or somebody else, numeric or by name), cancels "
                        "of own / foreign / unknown UIDs, GET /sched, /queue, ?tuid= selections and /u/<other>/ variants, clock advances "
                        "so that tasks run and single-occurrence tasks retire; UIDs from a pool with groups sharing 6..18 low bits of "
-                       "the 32-bit key (forcing table growth), a 100..254 character UID, UIDs with space/colon/slash, and up to 400 "
+                       "the 32-bit key (6..28 bits; forcing probe sequences and table growth), a 100..254 character UID, UIDs with space/colon/slash, and up to 400 "
                        "random ones; a sequential map model predicts every REQUEST-STATUS (count, order, UID, verdict), the task table "
                        "(UID -> owner) after every request, every listing, and version + SETUID of every execution")
     run.assumptions = ["two UID strings with the same 32-bit key are one key by design and are not generated",
